@@ -348,7 +348,7 @@ def check_files(b, c, res):
     """the file text equals the console text without colour codes (csv exactly; markdown cell by cell)"""
     from esrally import metrics
 
-    d = tempfile.mkdtemp(prefix="verif-c20-", dir="/dev/shm" if os.path.isdir("/dev/shm") else None)
+    d = tempfile.mkdtemp(prefix="verif-c20-")
     try:
         for fmt in ("csv", "markdown"):
             path = os.path.join(d, f"report.{fmt}")
